@@ -132,6 +132,11 @@ class C06(Check):
                         yield dict(unit, types=types, restr=rk, ign=True, sf=1, H=H, D=D, reset=1)
                     if rk == 'none' and types in (None, [2]):
                         yield dict(unit, types=types, restr=rk, ign=False, sf=1, H=H, D=D, far=1)
+                    if types is None and rk in ('none', 'r00') and n < nb:
+                        # the SMALLER molecule consists of hydrogens only (H2, beads called H1, H2, ...): legal, only the
+                        # larger one needs an atom that takes part in the fit
+                        for ign in (True, False):
+                            yield dict(unit, types=types, restr=rk, ign=ign, sf=1, H=H, D=D, ahyd=1)
         elif unit['k'] == 'large':
             for types in (None, [0, 1]):
                 for ign in (True, False):
@@ -161,7 +166,8 @@ class C06(Check):
             if case.get('far'):          # both molecules thousands of nm from the origin (legal in a .gro file)
                 pa = pa + FAR_SHIFT
                 pb = pb + FAR_SHIFT + np.array([0.25, -0.5, 0.125])
-            A = molecule('MOLA', [(f'C{i + 1}', 'MOLA', 1) for i in range(n)], edges, pa)
+            el = 'H' if case.get('ahyd') else 'C'
+            A = molecule('MOLA', [(f'{el}{i + 1}', 'MOLA', 1) for i in range(n)], edges, pa)
             B = molecule('MOLB', [(nm, 'MOLB', 1) for nm in names], bedges, pb)
             return A, B, edges, bedges, acyc, True
         if case['k'] == 'large':
